@@ -328,5 +328,16 @@ func (e *End) Unread() int { e.in.mu.Lock(); defer e.in.mu.Unlock(); return len(
 
 var ErrInjected = errors.New("memconn: injected I/O error")
 
+// resetError is a permanent failure that implements net.Error (as *net.OpError
+// does for ECONNRESET): neither a timeout nor temporary.
+type resetError struct{}
+
+func (resetError) Error() string   { return "memconn: connection reset by peer" }
+func (resetError) Timeout() bool   { return false }
+func (resetError) Temporary() bool { return false }
+
+// ErrReset is a non-timeout, non-temporary net.Error.
+var ErrReset net.Error = resetError{}
+
 var _ net.Conn = (*End)(nil)
 var _ = os.ErrDeadlineExceeded
